@@ -59,7 +59,7 @@ from .typeutils import (
 
 from .general import Print
 from .scalar import Int64
-from .array import Array
+from .array import Array, rewrite_item
 from .context import Source, Arg, Kernel
 from .context_cpu import ContextCpu
 
@@ -105,7 +105,7 @@ class Field:
             self.__get__(instance)._update(value)
         else:  # TODO check if below is really needed
             ftype, offset = self.get_offset(instance)
-            ftype._to_buffer(instance._buffer, offset, value)
+            rewrite_item(ftype, instance._buffer, offset, value)
 
     def get_offset(self, instance):  # compatible with info
         if self.is_reference:
